@@ -25,7 +25,7 @@ run_one() {
   git -C $wt reset -q --hard; git -C $wt clean -fdq
 }
 export -f run_one
-if [ $kind = neutral ]; then items=$(ls /verif/neutral/*.diff | xargs -n1 basename | sed 's/.diff$//'); else items=$(ls /verif/seeded); fi
+if [ $kind = neutral ]; then items=$(ls /verif/neutral/*${3}.diff | xargs -n1 basename | sed 's/.diff$//'); else items=$(ls /verif/seeded); fi
 n=0
 for it in $items; do lists[$((n % jobs))]+=" $it"; n=$((n+1)); done
 for k in $(seq 0 $((jobs-1))); do
